@@ -217,7 +217,16 @@ func Strip(v ssa.Value) ssa.Value {
 // IsNilConst reports whether v is the nil constant.
 func IsNilConst(v ssa.Value) bool {
 	c, ok := v.(*ssa.Const)
-	return ok && c.Value == nil && !isBasicNonNil(c.Type())
+	if !ok || c.Value != nil {
+		return false
+	}
+	switch t := c.Type().Underlying().(type) {
+	case *types.Pointer, *types.Interface, *types.Map, *types.Slice, *types.Chan, *types.Signature:
+		return true
+	case *types.Basic:
+		return !isBasicNonNil(t)
+	}
+	return false // zero value of a struct/array is not nil
 }
 
 func isBasicNonNil(t types.Type) bool {
